@@ -27,11 +27,15 @@ SHAPES = {
     "P6-untouched-import": {"main": ["a"], "a": ["u"], "u": []},
     "P7-untouched-import-fan": {"main": ["a", "b"], "a": ["u"], "b": ["u"], "u": []},
 }
+# a 2-cycle below the entry whose two members are both imported from outside the cycle (module bodies as in C20)
+CYCLE_SHAPES = {"P8-multi-entry-cycle": (["main", "a", "b", "c"], [(0, 1), (0, 3), (1, 2), (2, 1), (3, 2)])}
 UNTOUCHED = {"P6-untouched-import": {"u"}, "P7-untouched-import-fan": {"u"}}
 VARIANTS = ("clean", "warn", "err", "class")
 
 
 def c19_project(shape, variant):
+    if shape in CYCLE_SHAPES:
+        return c20_project(*CYCLE_SHAPES[shape])
     g = SHAPES[shape]
     order = list(g)
     files = {}
